@@ -362,8 +362,8 @@ def operand_vectors(rng, params, nrand, full):
         vs = [(b,) for b in boundary(params[0])]
     else:
         a, b = boundary(params[0]), boundary(params[1])
-        core_a = a[:14] if not full else a
-        vs = [(x, y) for x in core_a for y in b[:14]]
+        core_a = a[:9] if not full else a
+        vs = [(x, y) for x in core_a for y in (b[:9] if not full else b[:14])]
         # every boundary value once on each side, against a rotating partner
         vs += [(x, b[(3 * k) % len(b)]) for k, x in enumerate(a)] + [(a[(5 * k + 1) % len(a)], y) for k, y in enumerate(b)]
         vs += special_pairs(params[0])
@@ -392,7 +392,7 @@ def ops_task(rng, thorough):
     """one stateless module with a function per numeric opcode"""
     d = new_module()
     calls = []
-    nrand = 60 if thorough else 12
+    nrand = 60 if thorough else 6
     for op, (params, results) in NUMERIC.items():
         body = [["local.get", k] for k in range(len(params))] + [[op]]
         fi = add_func(d, params, results, [], body)
@@ -431,7 +431,7 @@ def task(id_, desc, calls, stateless=False, kind="pattern", **kw):
 
 def cmp_vectors(t):
     b = boundary(t)
-    vs = special_pairs(t) + [(b[(7 * k) % len(b)], b[(11 * k + 3) % len(b)]) for k in range(24)]
+    vs = special_pairs(t) + [(b[(7 * k) % len(b)], b[(11 * k + 3) % len(b)]) for k in range(10)]
     return list(dict.fromkeys(vs))
 
 
@@ -756,9 +756,25 @@ def trapping_start_task():
     return task("start-trap", d, [], name="start[trap]", nofinal=True)
 
 
+def host_tasks():
+    """host-level situations: a second, unrelated instance in the same process; the same Module object instantiated twice"""
+    d = new_module(mem=[1, 2])
+    size = add_func(d, [], ["i32"], [], [["memory.size"]])
+    ld = add_func(d, ["i32"], ["i32"], [], [L(0), ["i32.load", 0]])
+    st = add_func(d, ["i32", "i32"], [], [], [L(0), L(1), ["i32.store", 0]])
+    calls = [(size, (), "memory.size"), (st, (16, 77), "i32.store"), (ld, (16,), "i32.load"), (size, (), "memory.size")]
+    import copy
+    t1 = task("two-instances", d, calls, name="two-instances", after=copy.deepcopy(d))
+    d2 = new_module()
+    bt = add_func(d2, ["i32"], ["i32"], [],
+                  [["block", [], [], [["block", [], [], [["block", [], [], [L(0), ["br_table", [0, 1], 2]]], I(10), ["return"]]], I(11), ["return"]]], I(12)])
+    t2 = task("same-module-twice", d2, [(bt, (v,), "br_table[module instantiated twice]") for v in (0, 1, 2, 3)], stateless=True, twice=True)
+    return [t1, t2]
+
+
 def pattern_tasks(rng=None, thorough=False):
     ts = cmp_tasks() + [const_task(), locals_task(), globals_task()] + memory_tasks() + memgrow_tasks() + control_tasks() + call_tasks()
-    ts += [start_task(), trapping_start_task()]
+    ts += [start_task(), trapping_start_task()] + host_tasks()
     return ts
 
 
@@ -794,7 +810,13 @@ class FuncGen:
 
     # ---- expressions --------------------------------------------------------------------
     def const(self, t):
-        return [f"{t}.const", rand_value(self.rng, t)]
+        """one constant; NaN / infinity are made by reinterpreting an integer constant (ppci's python target cannot
+        emit such literals - open finding python:fNN.const[nan|inf] - and programs must stay clear of known findings)"""
+        b = rand_value(self.rng, t)
+        if t in FLTS and (is_nan(t, b) or is_inf(t, b)):
+            it = "i32" if t == "f32" else "i64"
+            return [f"{it}.const", b], [f"{t}.reinterpret_{it}"]
+        return ([f"{t}.const", b],)
 
     def small_i32(self, lo=0, hi=16):
         return I(self.rng.randrange(lo, hi))
@@ -806,11 +828,11 @@ class FuncGen:
             ls = self.locals_of(t)
             if ls and rng.random() < 0.6:
                 return [L(rng.choice(ls))]
-            return [self.const(t)]
+            return list(self.const(t))
         r = rng.random()
         d = depth - 1
         if r < 0.10:
-            return [self.const(t)]
+            return list(self.const(t))
         if r < 0.22:
             ls = self.locals_of(t)
             if ls:
@@ -882,6 +904,11 @@ class FuncGen:
                 b = b + [C(t, 1), [f"{t}.or"]]
             return a + b + [[f"{t}.{op}"]]
         r = rng.random()
+        if t == "f32" and rng.random() < 0.8:
+            # operations whose result is exact (f32 arithmetic on the python target is an open finding: hazard 2)
+            if r < 0.5:
+                return self.expr(t, d) + [[f"{t}.{rng.choice(['abs', 'neg', 'ceil', 'floor', 'trunc', 'nearest'])}"]]
+            return self.expr(t, d) + self.expr(t, d) + [[f"{t}.{rng.choice(['min', 'max', 'copysign'])}"]]
         if r < 0.35:
             return self.expr(t, d) + [[f"{t}.{rng.choice(FUN)}"]]
         op = rng.choice(FBIN)
@@ -914,8 +941,12 @@ class FuncGen:
             s = "f32" if c == "sat32" else "f64"
             return self.expr(s, d) + [[f"i64.trunc_sat_{s}_{rng.choice('su')}"]]
         c = rng.choice(["conv32", "conv64", "other", "reinterpret"])
+        if t == "f32" and c == "other" and rng.random() < 0.7:
+            c = "reinterpret"
         if c.startswith("conv"):
             s = "i32" if c == "conv32" else "i64"
+            if t == "f32" and rng.random() < 0.8:
+                return self.expr(s, d) + [C(s, 0xFFFFFF), [f"{s}.and"], [f"{t}.convert_{s}_{rng.choice('su')}"]]
             return self.expr(s, d) + [[f"{t}.convert_{s}_{rng.choice('su')}"]]
         if c == "reinterpret":
             s = "i32" if t == "f32" else "i64"
@@ -926,7 +957,7 @@ class FuncGen:
 
     def address(self, d):
         code = self.expr("i32", d)
-        if self.rng.random() < 0.97:
+        if self.rng.random() < 0.985:
             code = code + [I(0xFFF0), ["i32.and"]]
         return code, self.rng.randrange(0, 8)
 
@@ -981,7 +1012,7 @@ class FuncGen:
 
             def body():
                 return self.stmts(d) + [L(c), I(1), ["i32.sub"], ["local.tee", c], ["br_if", 0]]
-            return [I(n), ["local.set", c], ["loop", [], [], self.in_label(None, body)]]
+            return [I(n), ["local.set", c], ["loop", [], [], self.in_label("loop", body)]]
         if r < 0.86:
             # br_table dispatch over nested blocks
             n = rng.randrange(2, 5)
@@ -1030,7 +1061,10 @@ def random_program(rng, ident):
         for _ in range(rng.randrange(0, 2) + (1 if t == "i32" else 0)):
             m = rng.random() < 0.8
             gtypes.append((t, m))
-            d["globals"].append([t, m, rand_value(rng, t)])
+            b = rand_value(rng, t)
+            while is_nan(t, b) or is_inf(t, b):
+                b = rand_value(rng, t)
+            d["globals"].append([t, m, b])
     if has_mem:
         d["datas"] = [[rng.randrange(0, 200), bytes(rng.getrandbits(8) for _ in range(rng.randrange(1, 40))).hex()],
                       [65536 - 16, bytes(rng.getrandbits(8) for _ in range(16)).hex()]]
